@@ -456,6 +456,10 @@ impl S3 for FileSystem {
 
         let Some(body) = body else { return Err(s3_error!(IncompleteBody)) };
 
+        if self.get_bucket_path(&bucket)?.exists().not() {
+            return Err(s3_error!(NoSuchBucket));
+        }
+
         let mut checksum: s3s::checksum::ChecksumHasher = default();
         if input.checksum_crc32.is_some() {
             checksum.crc32 = Some(default());
@@ -541,6 +545,13 @@ impl S3 for FileSystem {
         req: S3Request<CreateMultipartUploadInput>,
     ) -> S3Result<S3Response<CreateMultipartUploadOutput>> {
         let input = req.input;
+
+        // the object path must be valid and the bucket must exist
+        let _ = self.get_object_path(&input.bucket, &input.key)?;
+        if self.get_bucket_path(&input.bucket)?.exists().not() {
+            return Err(s3_error!(NoSuchBucket));
+        }
+
         let upload_id = self.create_upload_id(req.credentials.as_ref()).await?;
 
         if let Some(ref metadata) = input.metadata {
